@@ -161,6 +161,14 @@ type Tagged struct {
 	}
 }
 
+// URLRec has an acronym at the start of its name: the lower-case directory
+// name of such a type is a corner of the naming rule (C18).
+type URLRec struct {
+	sod.Item
+	Host string `sod:"unique,lower"`
+	Hits int    `sod:"index"`
+}
+
 // fieldInfo describes one searchable leaf path of Rec.
 type fieldInfo struct {
 	Path      string
